@@ -86,13 +86,17 @@ def mask_literals(st):
     return ''.join(out)
 
 
+# `X::<impl FnMut(..) -> R>::new`: an `impl Trait` generic ARGUMENT (stripped), as opposed to the path segment `<impl Type>` / `<impl at ..>`
+_TRAIT_ARG = re.compile(r'::<(?:&mut |&)?impl (?:for<[^>]*> )?(?:std::\w+::|core::\w+::)?(?:Fn|FnMut|FnOnce|Into|AsRef|AsMut|Borrow|IntoIterator|Iterator|ToString|Write|Read|Display|Debug|Clone|Copy|Sized|Send|Sync)\b')
+
+
 @lru_cache(maxsize=None)
 def strip_generics(s):
     """Remove `::<...>` turbofish groups (but keep `<T as Trait>` and `<impl at ...>`)."""
     out, d = [], 0
     i, n = 0, len(s)
     while i < n:
-        if d == 0 and s.startswith('::<', i) and not s.startswith('::<impl ', i):
+        if d == 0 and s.startswith('::<', i) and not (s.startswith('::<impl ', i) and not _TRAIT_ARG.match(s, i)):
             d = 1; i += 3; continue
         if d > 0:
             if s[i] == '<': d += 1
